@@ -24,6 +24,26 @@ def run(sid):
                'summary': [l for l in out.splitlines() if l.startswith('govc ')]}
         json.dump(res, open(os.path.join(d, 'check_result.json'), 'w'), indent=1)
         verdict = 'CAUGHT' if p.returncode == 1 and viol else ('MISSED' if p.returncode == 0 else 'ERROR(%d)' % p.returncode)
+        if verdict == 'MISSED' and os.environ.get('SEEDCHECK_CROSS', '1') == '1':
+            # does the check of ANOTHER property, whose contracts cover the changed files, catch it?
+            changed = set(re.findall(r'^\+\+\+ b/(\S+)', open(os.path.join(d, 'patch.diff')).read(), re.M))
+            others = []
+            for ef in sorted(glob.glob('/verif/evidence/C*.json')):
+                q = os.path.basename(ef)[:-5]
+                if q == prop:
+                    continue
+                ev = json.load(open(ef))
+                if any((o.get('pos') or '').split(':')[0] in changed for o in ev['coverage'].get('per_obligation', [])):
+                    others.append(q)
+            for q in others:
+                pq = subprocess.run(['/verif/bin/govc', 'check', q, 'quick'], capture_output=True, text=True, env=env, timeout=3600)
+                vq = [l for l in (pq.stdout + pq.stderr).splitlines() if l.startswith('VIOLATION')]
+                if pq.returncode == 1 and vq:
+                    res['caught_by_other_property'] = {'property': q, 'violations': vq}
+                    json.dump(res, open(os.path.join(d, 'check_result.json'), 'w'), indent=1)
+                    verdict = 'CAUGHT-BY-' + q
+                    viol = vq
+                    break
         ob = ', '.join(re.sub(r'.*obligation=(\S+).*', r'\1', v) for v in viol[:3])
         return sid, prop, verdict, ob or out[-200:].replace('\n', ' ')
     except Exception as ex:
